@@ -2,7 +2,8 @@
 """Copies confirmed seeded changes from /tmp/seeded_out into /verif/seeded/<id>/ with a meta.json that records
 which property it breaks, what it needs to manifest, and what was run (confirmation + check results)."""
 import json, os, shutil, sys
-src = "/tmp/seeded_out"
+src = sys.argv[1] if len(sys.argv) > 1 else "/tmp/seeded_out"
+rnd = sys.argv[2] if len(sys.argv) > 2 else "1"
 dst = "/verif/seeded"
 rows = []
 for c in sorted(os.listdir(src)):
@@ -15,13 +16,13 @@ for c in sorted(os.listdir(src)):
             print("skip (not confirmed)", d); continue
         meta = json.load(open(os.path.join(d, "meta.json")))
         chk = json.load(open(os.path.join(d, "check_results.json"))) if os.path.exists(os.path.join(d, "check_results.json")) else {"results": {}}
-        sid = "%s%s" % (c, x)
+        sid = "%s%s" % (c, x if rnd == "1" else {"a": "c", "b": "d"}[x])
         out = os.path.join(dst, sid)
         os.makedirs(out, exist_ok=True)
         shutil.copy(os.path.join(d, "patch.diff"), os.path.join(out, "patch.diff"))
         shutil.copy(os.path.join(d, "demo.rs"), os.path.join(out, "demo.rs"))
         m = {"id": sid, "property": c, "summary": meta.get("summary"), "needs": meta.get("needs"), "files": meta.get("files"),
-             "origin": "written by an independent sub-agent given only the property text and a scratch worktree",
+             "origin": "written by an independent sub-agent given only the property text and a scratch worktree (round %s)" % rnd,
              "confirmed_in_scratch_worktree": {k: conf[k] for k in ("applies", "suite_passes_with", "demo_fails_with", "demo_passes_without")},
              "ran": ["selftest/confirm.py: git apply; cargo test --offline --test demo (fails); cargo test --workspace --offline (passes); revert; demo passes",
                      "selftest/mutant.py: git -C /repo apply patch.diff; bin/check %s --tier quick; git -C /repo checkout -- ." % c],
